@@ -13,7 +13,7 @@ PROP = "C18"
 RULE = (
     "the keyword universe is DERIVED AT RUN TIME with inspect.signature from the constructors of HTTPConnectionPool, "
     "HTTPSConnectionPool, HTTPConnection and HTTPSConnection (minus host/port), so a keyword added later is in scope; each "
-    "keyword has two distinct valid values (typed table, fallback two strings). A case is (scheme http|https, a base context = "
+    "keyword has two distinct valid values (typed table, fallback two strings). A case is (manager PoolManager | ProxyManager (http forwarded, https tunnelled), scheme http|https, a base context = "
     "subset of keyword->value, one keyword to vary or none, supply path: manager default vs pool_kwargs | two pool_kwargs | "
     "connection_from_context | connection_from_host, URL spelling variants in case / explicit default port). Oracle: one "
     "differing keyword => different pool objects or the keyword is rejected with TypeError/ValueError (silently accepted and "
@@ -113,6 +113,8 @@ def run_case(case) -> list[Failure]:
 
     if case.get("kind") != "key" or case.get("scheme") not in ("http", "https") or case.get("how") not in ("url", "host", "context") or case.get("path") not in ("default-vs-kwargs", "kwargs-vs-kwargs", "same", "absent-vs-kwargs0", "absent-vs-kwargs1"):
         raise core.InvalidCase
+    if case.get("mgr", "pm") not in ("pm", "proxy") or (case.get("mgr") == "proxy" and case["how"] == "context"):
+        raise core.InvalidCase  # (connection_from_context is not a ProxyManager route: it would bypass the proxy)
     names = universe()
     base, vary = case.get("base", {}), case.get("vary")
     if not isinstance(base, dict) or any(k not in names or v not in (0, 1) for k, v in base.items()) or (vary is not None and vary not in names + ["zz_unknown_keyword"]):
@@ -122,6 +124,8 @@ def run_case(case) -> list[Failure]:
     scheme = case["scheme"]
     fails: list[Failure] = []
     sig = {"scheme": scheme, "path": case["path"], "how": case["how"]}
+    if case.get("mgr") == "proxy":
+        sig["mgr"] = "proxy"
     srv = fakenet.Endpoint()
 
     def brief():
@@ -145,12 +149,15 @@ def run_case(case) -> list[Failure]:
             idx = int(case["path"][-1])
             if vary is None or (vary, idx) in DEFAULT_EQUIVALENT or vary == "ssl_context":
                 raise core.InvalidCase
+            if case.get("mgr") == "proxy" and vary in ("_proxy", "_proxy_headers", "_proxy_config"):
+                raise core.InvalidCase  # never absent there: the ProxyManager sets them itself
             x_kw, y_kw = None, {vary: value(vary, idx)}
         else:  # same: equal contexts, spelled twice
             x_kw = {vary: value(vary, 0)} if vary else None
             y_kw = {vary: value(vary, 0)} if vary else None
         try:
-            pm = urllib3.PoolManager(**mgr_kw)
+            # (through a ProxyManager an http URL is forwarded: its pool is the pool towards the proxy; https is tunnelled)
+            pm = urllib3.ProxyManager("http://proxy.test:3128", **mgr_kw) if case.get("mgr") == "proxy" else urllib3.PoolManager(**mgr_kw)
         except (TypeError, ValueError) as e:
             return fails  # rejected at construction: fine
         snap_kw = _snapshot(pm.connection_pool_kw)
@@ -232,7 +239,7 @@ def nontrivial(case):
 
 
 def classes(case):
-    return ["scheme:" + case["scheme"], "path:" + case["path"], "how:" + case["how"], "vary:" + str(case.get("vary")), "base:%d" % len(case.get("base", {}))] + (["spelling-variant"] if case.get("spelling") else [])
+    return ["mgr:" + case.get("mgr", "pm"), "scheme:" + case["scheme"], "path:" + case["path"], "how:" + case["how"], "vary:" + str(case.get("vary")), "base:%d" % len(case.get("base", {}))] + (["spelling-variant"] if case.get("spelling") else [])
 
 
 def enum_cases(tier):
@@ -244,6 +251,8 @@ def enum_cases(tier):
                     if path.startswith("absent") and ((vary, int(path[-1])) in DEFAULT_EQUIVALENT or vary == "ssl_context"):
                         continue
                     yield {"kind": "key", "scheme": scheme, "path": path, "how": how, "base": {}, "vary": vary, "spelling": False}
+                    if how != "context" and not (path.startswith("absent") and vary in ("_proxy", "_proxy_headers", "_proxy_config")):
+                        yield {"kind": "key", "scheme": scheme, "path": path, "how": how, "base": {}, "vary": vary, "spelling": False, "mgr": "proxy"}
     for scheme in ("http", "https"):
         for how in ("url", "host"):
             yield {"kind": "key", "scheme": scheme, "path": "same", "how": how, "base": {}, "vary": None, "spelling": True}
@@ -264,7 +273,8 @@ def _hyp():
     return st.fixed_dictionaries({
         "kind": st.just("key"), "scheme": st.sampled_from(["http", "https"]), "path": st.sampled_from(["default-vs-kwargs", "kwargs-vs-kwargs", "same", "absent-vs-kwargs0", "absent-vs-kwargs1"]), "how": st.sampled_from(["url", "host", "context"]),
         "base": st.dictionaries(st.sampled_from(names), st.integers(0, 1), max_size=5), "vary": st.one_of(st.none(), st.sampled_from(names)), "spelling": st.booleans(),
-    }).map(lambda c: dict(c, spelling=c["spelling"] and c["path"] == "same"))
+        "mgr": st.sampled_from(["pm", "pm", "proxy"]),
+    }).map(lambda c: dict(c, spelling=c["spelling"] and c["path"] == "same", how=("url" if c["mgr"] == "proxy" and c["how"] == "context" else c["how"])))
 
 
 def shards(tier, seed):
